@@ -105,7 +105,20 @@ func c10OpDesc(op vOp) string {
 	if op.NB {
 		s += "+nb"
 	}
+	if op.W != "" {
+		s += "+w"
+	}
 	return s
+}
+
+// c10Key is the canonical identity of a finding: operation kind (+nb, +w), position of the target relative to
+// the current revision, whether link-snap had run, first differing field.
+func c10Key(op vOp, pre vSnap, res vRes, field string) string {
+	if op.W != "" && field == "config" {
+		// configuration written by the failed change itself is still there: one key per operation kind
+		return "written-config-survives-undo:" + op.K
+	}
+	return fmt.Sprintf("%s:%s:%s:%s", c10OpDesc(op), c10RelTarget(pre, res.Target), c10Phase(op, res), field)
 }
 
 func c10Phase(op vOp, res vRes) string {
@@ -284,7 +297,7 @@ func (cr *c10Runner) checkState(st vState, onlyOp int) {
 			if res.Status == "Error" {
 				field = diffs[0].Field
 			}
-			key := fmt.Sprintf("%s:%s:%s:%s", c10OpDesc(op), c10RelTarget(pre, res.Target), c10Phase(op, res), field)
+			key := c10Key(op, pre, res, field)
 			if cr.reported[key] {
 				// same canonical finding as one already confirmed and reported by this process
 				r.Add("violations_duplicate_key", 1)
@@ -348,6 +361,23 @@ func (cr *c10Runner) checkState(st vState, onlyOp int) {
 		if limit < 0 {
 			continue
 		}
+		// the change itself writes configuration (as a hook would) right after link-snap / after the configure
+		// hook, and fails at every later splice point
+		for _, w := range []string{"link", "configure"} {
+			op.T, op.W = "", w
+			first := limit
+			for k := limit; k >= first && k > 0; k-- {
+				op.F = k + 1
+				res, stop := runCase(op)
+				if stop {
+					break
+				}
+				if k == limit {
+					first = res.WIdx + 1
+				}
+			}
+		}
+		op.W = ""
 		if !withTriggers {
 			continue
 		}
@@ -393,7 +423,7 @@ func (s *verifC10Suite) TestVerifC10(c *C) {
 			if res.Status == "Error" {
 				field = diffs[0].Field
 			}
-			r.Violation(fmt.Sprintf("%s:%s:%s:%s", c10OpDesc(cas.Op), c10RelTarget(pre, res.Target), c10Phase(cas.Op, res), field), strings.Join(texts, "; "), cas)
+			r.Violation(c10Key(cas.Op, pre, res, field), strings.Join(texts, "; "), cas)
 		}
 		r.Add("evaluations", 1)
 		vFinish(r, "replay of one stored case")
